@@ -141,6 +141,18 @@ class Selector:
                 return [(s, ("const", bool(tr))) for s, tr in self.branch(n, st)]
             except Unsupported:
                 pass
+        if isinstance(n, ast.IfExp):
+            # a conditional expression evaluates its test, then ONE of its arms
+            try:
+                out = []
+                for s, tr in self.branch(n.test, st):
+                    if getattr(s, "raised", None):
+                        out.append((s, None))
+                    else:
+                        out += self.ev(n.body if tr else n.orelse, s)
+                return out
+            except Unsupported:
+                pass
         if isinstance(n, (ast.BinOp, ast.JoinedStr, ast.Compare, ast.BoolOp, ast.UnaryOp, ast.IfExp)):
             # string building for messages etc.: evaluate calls inside for their effects, value unknown
             outs = [st]
@@ -321,6 +333,8 @@ class Selector:
             return ("envval", idx[1] if idx[0] == "const" else "?")
         if base[0] == "tuple" and idx[0] == "const" and isinstance(idx[1], int) and -len(base[1]) <= idx[1] < len(base[1]):
             return base[1][idx[1]]
+        if base[0] == "regdict" and idx[0] == "rowname":
+            return ("rowmod", idx[1], idx[2])
         return ("?", norm(node)[:40])
 
     def call(self, n, st):
@@ -415,6 +429,25 @@ class Selector:
                     res.append((s, v))
                 elif v is None:
                     res.append((s, None))
+                else:
+                    res.append((s, ("?", norm(n)[:40])))
+            return res
+        if f == "dict" and len(n.args) == 1 and isinstance(n.args[0], ast.Name) and n.args[0].id == self.regname and not n.keywords:
+            # the registry as a mapping name -> module (names are unique: R-C19-1)
+            return [(st, ("regdict",))]
+        if f == "sys.modules.get" and len(n.args) in (1, 2) and not n.keywords and (len(n.args) == 1 or norm(n.args[1]) == "None"):
+            # sys.modules.get(M): the loaded module, or None - the same question as `M in sys.modules` (a None entry, which blocks
+            # an import, counts as not loaded here)
+            res = []
+            for s, a in self.ev(n.args[0], st):
+                if a is None:
+                    res.append((s, None))
+                elif a[0] == "rowmod":
+                    for s2, tr in self.fork(("in_sysmodules", a[1], a[2]), s, n):
+                        res.append((s2, ("preloaded", a[1], a[2]) if tr else ("none",)))
+                elif a[0] == "const":
+                    for s2, tr in self.fork(("in_sysmodules_const", a[1]), s, n):
+                        res.append((s2, (("modobj", a[1]) if a[1] in self.repo.modules else ("?", "sys.modules[%s]" % a[1])) if tr else ("none",)))
                 else:
                     res.append((s, ("?", norm(n)[:40])))
             return res
@@ -590,6 +623,24 @@ class Selector:
                     out.append((s2, tr if pos else not tr))
                 return out
             return [(s, tr if pos else not tr) for s, tr in self.fork(("?", norm(node)), st, node)]
+        if isinstance(op, (ast.In, ast.NotIn)) and b[0] == "regdict" and a[0] == "envval" and a[1] != "?":
+            # the user's value looked up among the registry names: it names at most one row (names are unique).  On the positive
+            # outcome the value IS that row's name - a fresh abstract row, of which nothing else is known; on the negative one no
+            # row matches (the table has been searched completely)
+            pos = isinstance(op, ast.In)
+            out = []
+            for s2, tr in self.fork(("env_eq", "named", "cur"), st, node):
+                if tr:
+                    s2 = s2.copy()
+                    for fr in [s2.env] + [f_[0] for f_ in getattr(s2, "frames", [])]:
+                        for k_, v_ in list(fr.items()):
+                            if v_ == a:
+                                fr[k_] = ("rowname", "named", "cur")
+                else:
+                    s2 = s2.copy()
+                    s2.events.append(("exhausted", "registry lookup", node))
+                out.append((s2, tr if pos else not tr))
+            return out
         if isinstance(op, (ast.In, ast.NotIn)):
             pos = isinstance(op, ast.In)
             if b[0] == "sysmodules" and a[0] == "rowmod":
@@ -598,6 +649,8 @@ class Selector:
                 return [(s, tr if pos else not tr) for s, tr in self.fork(("in_sysmodules_const", a[1]), st, node)]
             if b[0] == "environ" and a[0] == "const":
                 return [(s, tr if pos else not tr) for s, tr in self.fork(("env_set", a[1]), st, node)]
+        if isinstance(op, (ast.Eq, ast.NotEq)) and a[0] == "const" and b[0] == "const":
+            return [(st, (a[1] == b[1]) == isinstance(op, ast.Eq))]
         if isinstance(op, (ast.Eq, ast.NotEq)):
             pos = isinstance(op, ast.Eq)
             x, y = (a, b) if a[0] == "envval" else (b, a)
